@@ -9,7 +9,8 @@ contracts the direct workload judges the compound laws of the statement:
   * normalized(): idempotent, keeps per-mount totals, is_normalized() afterwards;
   * a.satisfies(r)  <=>  cores, memory and every mount point of r are <= in a
     (WorkflowExecutionException is the designed outcome when r names a mount point a lacks);
-  * a - r raises exactly when some mount point would become negative; a | r keeps keys / max size;
+  * a - r raises when some mount point would become negative (beyond 1e-9 relative rounding residue) and
+    only then; a | r keeps keys / max size;
   * no operator mutates its operands.
 """
 from __future__ import annotations
@@ -182,11 +183,16 @@ def run_case(sh: Shard, case) -> bool:
 
     # a - r : raises exactly when a mount point of both would become negative
     sh.count("law_sub")
+    # a negative result must raise; a rounding-size one (within 1e-9 relative of the operands) may be absorbed
+    tiny = lambda mp: 1e-9 * max(1.0, ma["st"][mp], mr["st"][mp])
     neg = [mp for mp in ma["st"] if mp in mr["st"] and ma["st"][mp] - mr["st"][mp] < 0]
+    clearly_neg = [mp for mp in neg if ma["st"][mp] - mr["st"][mp] < -tiny(mp)]
     got, d = guarded("sub", lambda: a - r, expect_exc=(WorkflowExecutionException,))
     if got:
-        if neg:
-            bad("sub", f"a-r returned although {neg} is negative")
+        if clearly_neg:
+            bad("sub", f"a-r returned although {clearly_neg} is negative")
+        if neg and not clearly_neg:
+            sh.count("sub_rounding_residue_absorbed")
         if set(mr["st"]) - set(ma["st"]):
             sh.count("sub_foreign_mount_recorded")
         if exp and not missing:
@@ -249,8 +255,8 @@ def storage_cases(sh: Shard, rng, n):
                 res = f()
                 if mp1 != mp2:
                     sh.violation(None, f"Storage {op} over different mount points returned {res}", dict(case, op=op))
-                elif op == "sub" and x - y < 0:
-                    sh.violation(None, f"Storage sub returned a negative size {res}", dict(case, op=op))
+                elif op == "sub" and x - y < -1e-9 * max(1.0, x, y):
+                    sh.violation(None, f"Storage sub returned although the result is negative: {res}", dict(case, op=op))
             except M.LawBroken as e:
                 sh.violation(None, f"{e.law}: {e.detail}", dict(case, op=op))
             except ArithmeticError:
